@@ -20,8 +20,9 @@ import (
 // candidate callback or the flush at the compiled-in yield points of icegatherer.go.
 
 type c24Rec struct {
-	mu  sync.Mutex
-	evs []string // candidate line, or "" for nil
+	mu          sync.Mutex
+	evs         []string // candidate line, or "" for nil
+	lateHandler bool     // the handler was registered after gathering had already ended
 }
 
 func (r *c24Rec) handler(c *ICECandidate) {
@@ -69,7 +70,16 @@ func TestVerifC24(t *testing.T) { //nolint:cyclop,gocognit,maintidx
 				se.SetInterfaceFilter(func(string) bool { return true }) // lo + eth0: several host candidates
 			},
 		})
+		before := sched.Passes("gather.nil.stateComplete")
 		pc.OnICECandidate(rec.handler)
+		if sched.Passes("gather.nil.stateComplete") != before || pc.iceGatherer.State() == ICEGathererStateComplete {
+			// With a candidate pool gathering starts inside NewPeerConnection; here it had already reached its end before
+			// the handler could be registered, so the end-of-gathering callback holds the no-op handler it loaded at its
+			// start. What the (late) handler sees then says nothing about the property: the case is not judged.
+			rec.mu.Lock()
+			rec.lateHandler = true
+			rec.mu.Unlock()
+		}
 		if _, err := pc.CreateDataChannel("c24", nil); err != nil {
 			panic(err)
 		}
@@ -86,6 +96,14 @@ func TestVerifC24(t *testing.T) { //nolint:cyclop,gocognit,maintidx
 	}
 	// evaluate runs the oracles once gathering is complete and the handler stream has settled.
 	evaluate := func(idx int, label string, pool uint8, pc *PeerConnection, rec *c24Rec, scripted bool) {
+		rec.mu.Lock()
+		late := rec.lateHandler
+		rec.mu.Unlock()
+		if late && label != "flush-after-completion" && label != "renegotiate-after-completion" {
+			run.Inconclusive("gathering-ended-before-handler-registered:" + label)
+
+			return
+		}
 		if !kit.Eventually(wd, func() bool { return pc.ICEGatheringState() == ICEGatheringStateComplete && rec.nils() >= 1 }) {
 			if pc.ICEGatheringState() == ICEGatheringStateComplete {
 				// gathering finished but no nil ever arrived: decisive after a generous settle
